@@ -1079,6 +1079,8 @@ _BN11 = {41: ['C15', 'C16', 'C17', 'C18'], 42: ['C07', 'C09', 'C10', 'C11', 'C12
          44: ['C01', 'C02', 'C03', 'C04', 'C05', 'C06', 'C07', 'C13', 'C19']}
 _BN11_FILE = {41: G, 42: M, 43: P, 44: B}
 _BN11_KNOWN = {
+ 'bn43-04': 'consuming the enclosing `[` / `]` moves from parse_formula_list to its two call sites in parse_countable_formula: A3 / T state what each parse function consumes (brackets included), as with bn40-03; the grammar automaton A2 of the whole parser is unaffected',
+ 'bn43-06': 'new_with_env pre-sizes raw2free with vec![None; n] and writes raw2free[raw] = Some(vi) under enumerate(): the new IndexMut site needs the relational fact raw2free.len() == vars.len(), which no discharge rule of engine P derives',
 }
 import os as _os
 for _k, _checks in _BN11.items():
@@ -1098,5 +1100,7 @@ CASES += [
  dict(id='queens-reversed-lengths-drop-a-diagonal', kind='fire', file=Q, patch='bn41-01.diff', old='    for length in (1..n).rev() {', new='    for length in (1..n - 1).rev() {', expect={'C15': 'violation'}, control=False),
  dict(id='count-bound-match-falls-back-to-zero', kind='fire', file=P, patch='bn44-05.diff', old='            Err(_) => i64::MAX,', new='            Err(_) => 0,', expect={'C05': 'CLAMP'}, control=False),
  dict(id='exists-pop-loop-negates-the-accumulator', kind='fire', file=B, patch='bn44-01.diff', old='            quantified = self.exists_impl(&symbol, quantified);', new='            quantified = self.exists_impl(&symbol, self.not(quantified));', expect={'C04': 'violation'}, control=False),
+ dict(id='tokenize-number-branch-falls-through', kind='fire', file=P, patch='bn43-01.diff', old='''                result.push(SymbolicBDDToken::Countable(parsed_number));
+                continue;''', new='''                result.push(SymbolicBDDToken::Countable(parsed_number));''', expect={'C05': 'tokenize'}, control=False),
  dict(id='timed-closure-applies-model-inside', kind='fire', file=M, patch='bn42-05.diff', old='        let (bdd, elapsed) = timed(|| input_parsed.eval());', new='        let (bdd, elapsed) = timed(|| input_parsed.env.model(input_parsed.eval()));', expect={'C10': 'model'}, control=False),
 ]
